@@ -59,6 +59,11 @@ def jobs2d(rng, tier):
             L.append("az %d 0 %s" % (pct, J.hx(bytes(rng.choice([0, 255]) for _ in range(n)))))
         for req in ((-4, -1, 1, 5, 22, 23) if tier == "quick" else list(range(-4, 0)) + list(range(1, 33))):
             L.append("az %d %d %s" % (pct, req, J.hx("AZ%d" % req)))
+    import gaps
+    for a in gaps.aztec_stuffing(rng, tier):
+        L.append("az " + a)
+    for t in gaps.dm_misaligned_digits(DM_CAPS):
+        L.append("dm %s" % J.hx(t))
     # PDF417: codeword counts 1..~900 x levels
     for lvl in range(9):
         for n in ((0, 7, 60, 400, 1200) if tier == "quick" else (0, 1, 2, 5, 7, 20, 60, 150, 400, 800, 1200, 1700)):
